@@ -757,8 +757,24 @@ func scenarioFamily() *family {
 			}
 			second = append(second, s2)
 		}
-		if _, err := tssrsa.CombineSignShares(&key.PublicKey, second, digest); err != nil {
+		var enc [][]byte
+		for i := range second {
+			b, _ := second[i].MarshalBinary()
+			enc = append(enc, b)
+		}
+		sig1, err := tssrsa.CombineSignShares(&key.PublicKey, second, digest)
+		if err != nil {
 			run.Violate("hist[scenarios].tss/rsa.KeyShare.Sign", "stale-or-aliased-state", "cache=%v blind=%v: partial signatures from the second use of each share do not combine: %v", cache, blind, err)
+			return
+		}
+		for i := range second {
+			if b, _ := second[i].MarshalBinary(); !bytes.Equal(b, enc[i]) {
+				run.Violate("hist[scenarios].tss/rsa.CombineSignShares", "operation-modifies-its-operand", "signature share %d encodes differently after CombineSignShares", i)
+				return
+			}
+		}
+		if sig2, err := tssrsa.CombineSignShares(&key.PublicKey, second, digest); err != nil || !bytes.Equal(sig1, sig2) {
+			run.Violate("hist[scenarios].tss/rsa.CombineSignShares", "stale-or-aliased-state", "combining the same shares a second time: err=%v", err)
 		}
 	})
 	sc("eddilithium2/3.PublicKey.Unpack(buffer-reused)", func(run *core.Run, imm uint64) {
